@@ -84,12 +84,15 @@ def check(run, prog, tier):
             msg = f"listener rejected: {len(sends)} answer(s) {[show(s.args[0])[:60] for s in sends]}, {len(writes)} store write(s); expected one Nack to the sender, nothing stored"
         else:
             kind = "accepted"
-            ok = rv == const(True) and len(sends) == 1 and len(writes) == 1
+            # (whether and how long the accepted subscription is *recorded* is C06's subject - N1 / T-rules; this property is
+            # about the answer: exactly one Ack, to the sender, not before the listener had its say)
+            ok = rv == const(True) and len(sends) == 1 and len(writes) <= 1
             if ok:
                 a = sends[0].args[0]
-                ok = a[0] == "call" and a[1][0] == "bound" and a[1][2] == tack.qual and sends[0].arg(1, "remote") == addr and writes[0].seq < sends[0].seq
+                ok = a[0] == "call" and a[1][0] == "bound" and a[1][2] == tack.qual and sends[0].arg(1, "remote") == addr \
+                    and all(w.seq < sends[0].seq for w in writes)
                 subterm = a[1][1]
-            msg = f"accepted: {len(sends)} answer(s) {[show(s.args[0])[:60] for s in sends]} to {[show(s.arg(1, 'remote')) for s in sends]}, {len(writes)} store write(s); expected the Ack to the sender after recording"
+            msg = f"accepted: {len(sends)} answer(s) {[show(s.args[0])[:60] for s in sends]} to {[show(s.arg(1, 'remote')) for s in sends]}, {len(writes)} store write(s); expected exactly one Ack to the sender (after the subscription was handed to the store)"
         classes.setdefault(kind, []).append(ok)
         run.ob("K1", f"{hs.qual}:{kind}", ok, loc(hs), msg)
         # running check and match dominate every effect
